@@ -71,6 +71,9 @@ func genHistory(r *rand.Rand, fatMode int) *roles.History {
 	base := gen.DayStart(gen.MinTS) + 86400*int64(1+r.Intn(11000))
 	nIf := 1 + r.Intn(2)
 	n := 4 + r.Intn(5)
+	if fatMode >= 0 {
+		n = 6 + r.Intn(4) // the frozen-reader kinds need several write-outs into the day the reader works on
+	}
 	ts := base + 86400 - 300*int64(1+r.Intn(3))
 	h := &roles.History{Encoder: int(encoders.EncoderTypeLZ4)}
 	fat := fatMode == 1 || fatMode < 0 && r.Intn(2) == 0 // every other history has write-outs with incompressible columns > 4 KiB
@@ -466,7 +469,9 @@ func run(c *fw.Case) {
 				advanceWriteouts(s, pre)
 				s.advance(s.r, k)
 				s.r.await()
-				advanceWriteouts(s, extra)
+				// the write-outs performed while the reader is frozen go (also) into the very day
+				// directory the reader is working on
+				advanceWriteoutsInto(s, h, extra)
 			})
 			c.Count("sched_reader_frozen", 1)
 		}
@@ -478,7 +483,17 @@ func run(c *fw.Case) {
 		if n < 4 {
 			return
 		}
-		pre := 1 + hr.Intn(n-3)
+		// start the reader when the last day of the history already holds committed blocks and at least
+		// three more write-outs are still to come (two of them rename the directory under the reader)
+		firstDay := gen.DayStart(h.Outs[0].Block.TS)
+		pre := 0
+		for pre < n && gen.DayStart(h.Outs[pre].Block.TS) == firstDay {
+			pre++
+		}
+		pre += 1 + hr.Intn(2)
+		if pre > n-3 {
+			pre = n - 3
+		}
 		opens := 0
 		for _, e := range readerEvents(c, self, histFile, pre) {
 			e := e
@@ -493,12 +508,12 @@ func run(c *fw.Case) {
 				if !advanceToColumnOpen(s, first) {
 					return
 				}
-				advanceWriteouts(s, 1)
+				advanceWriteoutsInto(s, h, 1)
 				s.advance(s.r, 1)
 				if !advanceToColumnOpen(s, gap) {
 					return
 				}
-				advanceWriteouts(s, 1)
+				advanceWriteoutsInto(s, h, 1)
 			})
 			c.Count("sched_reader_frozen_twice", 1)
 		}
@@ -547,6 +562,45 @@ func advanceToColumnOpen(s *sched, n int) bool {
 			}
 		}
 		s.advance(s.r, 1)
+	}
+}
+
+// dayDirOf extracts (iface, day) from the root-relative path of a file inside a day directory
+// ("eth0/2020/07/1595980800_<suffix>/sip.gpf"); ok is false for any other path.
+func dayDirOf(path string) (iface string, day int64, ok bool) {
+	f := strings.Split(path, "/")
+	if len(f) < 5 {
+		return "", 0, false
+	}
+	pre, _, _ := strings.Cut(f[3], "_")
+	d, err := strconv.ParseInt(pre, 10, 64)
+	if err != nil {
+		return "", 0, false
+	}
+	return f[0], d, true
+}
+
+// advanceWriteoutsInto lets the writer run until k more write-outs into the day directory the reader
+// is currently held in (by the path of its pending event) have completed; write-outs to other
+// directories that come first are performed as well. Without such a directory (or once the history
+// is exhausted) it falls back to k write-outs of any kind.
+func advanceWriteoutsInto(s *sched, h *roles.History, k int) {
+	s.r.await()
+	if s.r.fin || s.r.cur == nil {
+		advanceWriteouts(s, k)
+		return
+	}
+	iface, day, ok := dayDirOf(s.r.cur.Path)
+	if !ok {
+		advanceWriteouts(s, k)
+		return
+	}
+	for hit := 0; hit < k && !s.w.fin && s.wDone < len(h.Outs); {
+		o := h.Outs[s.wDone]
+		advanceWriteouts(s, 1)
+		if o.Iface == iface && gen.DayStart(o.Block.TS) == day {
+			hit++
+		}
 	}
 }
 
